@@ -92,6 +92,31 @@ fn arrival(rng: &mut Rng, n: usize, style: u64) -> (Vec<usize>, &'static str) {
     }
 }
 
+/// Handshakes with duplicated / superseded setup chunks BEFORE establishment and before any DATA.
+/// Client role: several INIT-ACKs (as a responder that draws fresh parameters for every INIT it
+/// answers -- which is what this implementation's own handle_init does -- sends them); the
+/// association runs on the parameters of the LAST one, so the peer's DATA is numbered from `t0`.
+/// Server role: the INIT arrives more than once. COOKIE chunks may be duplicated as well.
+fn stutter_handshake(rng: &mut Rng, client: bool, t0: u32) -> (Vec<Input>, &'static str) {
+    let mut h = vec![];
+    if client {
+        let n = rng.range(1, 2);
+        for _ in 0..n { h.push(Input::InitAck(rng.next() as u32, true)); }
+        h.push(Input::InitAck(t0, true));
+        if rng.chance(1, 3) { h.push(Input::InitAck(t0, true)); }
+        h.push(Input::CookieAck);
+        if rng.chance(1, 3) { h.push(Input::CookieAck); }
+        (h, "+superseded-init-ack")
+    } else {
+        let n = rng.range(2, 3);
+        for _ in 0..n { h.push(Input::Init(t0)); }
+        if rng.chance(1, 3) { h.push(Input::CookieEcho(false)); }
+        h.push(Input::CookieEcho(true));
+        if rng.chance(1, 3) { h.push(Input::CookieEcho(true)); }
+        (h, "+duplicated-init")
+    }
+}
+
 fn pick_t0(rng: &mut Rng) -> u32 {
     match rng.below(6) {
         0 => 0xFFFF_FFFFu32.wrapping_sub(rng.below(6) as u32),
@@ -123,7 +148,7 @@ fn gen_plan(rng: &mut Rng) -> Plan {
     let cs = peer_chunks(&sc, &w, t0, true);
     let style = rng.below(7);
     let (order, oname) = arrival(rng, cs.len(), style);
-    let mut hist = handshake(client, t0);
+    let (mut hist, hname) = if rng.chance(1, 5) { stutter_handshake(rng, client, t0) } else { (handshake(client, t0), "") };
     let dup_setup = rng.chance(1, 3);
     for i in order {
         if dup_setup && rng.chance(1, 5) {
@@ -136,7 +161,31 @@ fn gen_plan(rng: &mut Rng) -> Plan {
         }
         hist.push(Input::Data(cs[i].clone()));
     }
-    Plan { kind: "random", client, chans, sc, w, t0, hist, spec: true, note: format!("{}{}", oname, if dup_setup { "+dup-setup" } else { "" }), seq_prefix: None }
+    Plan { kind: "random", client, chans, sc, w, t0, hist, spec: true, note: format!("{}{}{}", oname, if dup_setup { "+dup-setup" } else { "" }, hname), seq_prefix: None }
+}
+
+/// A gap is open at the front; a buffered out-of-order chunk is duplicated many times by the
+/// network (each copy must be ignored AND must not be charged to the receive window again); then
+/// the gap filler and more data. `copies` x `size` exceeds the 128 KiB window in the corpus case.
+fn gen_dup_buffered(rng: &mut Rng, copies: usize, size: usize) -> Plan {
+    let client = rng.chance(1, 2);
+    let ordered = rng.chance(2, 3);
+    let chans = vec![ChanCfg::negotiated(0, ordered)];
+    let sc = vec![SChan { id: 0, ordered, mps: 1172 }];
+    let mut w = vec![Sub { sid: 0, ppid: 53, data: rng.bytes(3) }];
+    let nbuf = rng.range(1, 3) as usize;
+    for _ in 0..nbuf { w.push(Sub { sid: 0, ppid: 53, data: ap_bytes(size, rng.next() as u8) }); }
+    for _ in 0..rng.range(1, 3) { let n = rng.below(5) as usize; w.push(Sub { sid: 0, ppid: 51, data: rng.bytes(n) }); }
+    let t0 = pick_t0(rng);
+    let cs = peer_chunks(&sc, &w, t0, true);
+    let mut hist = handshake(client, t0);
+    // everything but chunk 0, the buffered ones duplicated
+    for _ in 0..copies { let j = 1 + rng.below(nbuf as u64) as usize; hist.push(Input::Data(cs[j].clone())); }
+    for j in 1..=nbuf { hist.push(Input::Data(cs[j].clone())); }
+    hist.push(Input::Data(cs[0].clone())); // the gap filler
+    for j in 1..=nbuf { if rng.chance(1, 2) { hist.push(Input::Data(cs[j].clone())); } } // late copies of delivered chunks
+    for c in &cs[nbuf + 1..] { hist.push(Input::Data(c.clone())); }
+    Plan { kind: "dup-buffered", client, chans, sc, w, t0, hist, spec: true, note: format!("{} copies of buffered {}-byte chunks behind a gap", copies, size), seq_prefix: None }
 }
 
 /// streams that no conforming sender produces: the model must still agree (no theorem premise)
@@ -368,6 +417,18 @@ fn oracle(p: &Plan, o: &Observed) -> Verdict {
             }
         }
     }
+    // no receive-window leak: once every chunk has arrived (hence been delivered: nothing is queued)
+    // the endpoint must advertise its whole configured window again
+    if !p.sc.is_empty() && !closing && !pre && fail.is_none() {
+        let cs = peer_chunks(&p.sc, &p.w, p.t0, true);
+        if cs.iter().all(|c| arrived.contains(&c.tsn)) {
+            if let Some(w) = o.sack_rwnd {
+                if w != local_rwnd() {
+                    fail = Some(format!("every chunk was delivered (nothing is buffered) but the last SACK advertises a_rwnd={} instead of the configured {}: receive window leaked", w, local_rwnd()));
+                }
+            }
+        }
+    }
     // Open exactly once and first on negotiated channels once established
     for c in &p.chans {
         let ev = o.events(c.id);
@@ -391,10 +452,13 @@ async fn main() {
     let mut plans = corpus();
     plans.extend(pre_established_plans());
     plans.push(ssn_wrap_plan());
-    let (n_random, n_mal, n_gaps) = if thorough { (12_000, 3_000, 600) } else { (2_200, 500, 80) };
+    let (n_random, n_mal, n_gaps, n_dupbuf) = if thorough { (12_000, 3_000, 600, 600) } else { (2_200, 500, 80, 120) };
     for _ in 0..n_random { plans.push(gen_plan(&mut rng)); }
     for _ in 0..n_mal { plans.push(gen_malformed(&mut rng)); }
     for i in 0..n_gaps { plans.push(gen_ssn_gaps(&mut rng, i % 8 == 0)); }
+    plans.push(gen_dup_buffered(&mut rng, 150, 1000));
+    plans.push(gen_dup_buffered(&mut rng, 140, 1172));
+    for _ in 0..n_dupbuf { let c = rng.range(1, 12) as usize; let sz = rng.range(64, 400) as usize; plans.push(gen_dup_buffered(&mut rng, c, sz)); }
     let results = par_map(plans, 24, run_plan).await;
     let mut out = Out::new(&args.out);
     let mut kinds = std::collections::BTreeMap::<String, usize>::new();
